@@ -502,6 +502,52 @@ void h_spline_bad_x(void)
 #ifndef RFI_N
 #define RFI_N 4
 #endif
+/*
+ * BOUNDED stand-in (witnesses, not a proof): between the knots rational
+ * function interpolation reproduces a low-order rational function.  Concrete
+ * tables of g(x) = 1 / (1 + x) on two, three and five knots (two knots do NOT
+ * give the straight line: the first version of this harness demanded that and
+ * raised a false alarm on the unchanged tree), queried in the lower and the
+ * upper half of a segment; all floats concrete, so CBMC evaluates the real
+ * _vnacal_rfi by constant folding.  Values between knots are otherwise
+ * outside what the solver can decide (DESIGN 8.2).
+ */
+void h_rfi_between(void)
+{
+    static const double xs2[2] = { 1.0, 2.0 };
+    static const double xs5[5] = { 0.0, 1.0, 2.0, 3.0, 4.0 };
+    double complex y2[2], y3[3], y5[5];
+    static const double q2[2] = { 1.25, 1.75 }, q3[4] = { 0.25, 0.75, 1.25, 1.75 }, q5[4] = { 0.5, 1.75, 2.25, 3.5 };
+    int segment = 0;
+
+    for (int i = 0; i < 2; ++i)
+	y2[i] = 1.0 / (1.0 + xs2[i]);
+    for (int i = 0; i < 5; ++i) {
+	y5[i] = 1.0 / (1.0 + xs5[i]);
+	if (i < 3)
+	    y3[i] = y5[i];
+    }
+    for (int i = 0; i < 2; ++i) {
+	double got = creal(_vnacal_rfi(xs2, y2, 2, 2, &segment, q2[i]));
+	double want = 1.0 / (1.0 + q2[i]);
+
+	CHECK(got - want < 1.0e-9 && want - got < 1.0e-9, "two knots of 1/(1+x): reproduced in both halves of the segment");
+    }
+    for (int i = 0; i < 4; ++i) {
+	double got = creal(_vnacal_rfi(xs5, y3, 3, 3, &segment, q3[i]));
+	double want = 1.0 / (1.0 + q3[i]);
+
+	CHECK(got - want < 1.0e-9 && want - got < 1.0e-9, "three knots of 1/(1+x): reproduced between the knots");
+    }
+    for (int i = 0; i < 4; ++i) {
+	double got = creal(_vnacal_rfi(xs5, y5, 5, 5, &segment, q5[i]));
+	double want = 1.0 / (1.0 + q5[i]);
+
+	CHECK(got - want < 1.0e-9 && want - got < 1.0e-9, "five knots of 1/(1+x): reproduced between the knots");
+    }
+    REACH("rfi evaluated between knots");
+}
+
 void h_rfi_knots(void)
 {
     IN_ARR(double, xs, RFI_N);
